@@ -7,14 +7,14 @@ requests
         → {"r":[ id | null …],"used":[…sorted],"pos":searchPos}      (one entry per script step)
   {"op":"fix","init":[[var,idx]…],"script":[["s",var]|["d",var]…]}
         → {"tables":[[[var,idx]…] …]}   (table after init, then after every step; dict order)
-  {"op":"hist","cfg":null|[b×7],"ops":[Op…]}
+  {"op":"hist","cfg":null|[b×8],"ops":[Op…]}
         → {"steps":[Obs…]}  one observation per operation
      Op   = ["newmap"] | ["ent",r,m,des,node,[solidRegs],[[var,idx]…]] | ["addent",r] | ["rment",r]
           | ["side",r,m,des] | ["solid",r,m,des,[sideRegs]] | ["addbrush",r] | ["rmbrush",r]
           | ["copy",r',r,des,tgt|null] | ["drop",r] | ["kid",r',r,i] | ["entat",r',m,i]
           | ["brushat",r',m,i] | ["spawn",r',m] | ["setnode",r,node] | ["delnode",r] | ["popnode",r]
           | ["group",r,m,des] | ["vis",r,m,des,[kidRegs]] | ["fxset",r,var] | ["fxdel",r,var]
-          | ["parse",Doc] | ["failsolid",m]
+          | ["parse",Doc] | ["failsolid",m,des]
      node = null | "raw" | int
      Doc  = {"vis":[[id,nkids]…],"world":id,"wsolids":[[id,[sideIds]]…],"groups":[ids],
              "ents":[[id,node,[[id,[sideIds]]…],[[var,idx]…]]…]}
@@ -94,7 +94,7 @@ def opOf (j : Json) : Except String Op := do
   | "fxset" => pure (.fxset (← n 1) (← n 2))
   | "fxdel" => pure (.fxdel (← n 1) (← n 2))
   | "parse" => pure (.parse (← docOf (a[1]!)))
-  | "failsolid" => pure (.failsolid (← n 1))
+  | "failsolid" => pure (.failsolid (← n 1) (← z 2))
   | _ => throw s!"unknown history op {name}"
 
 def dumpObj (s : St) : Nat → Nat → Json
@@ -129,7 +129,7 @@ def cfgOf (j : Json) : Except String Cfg :=
     pure { removeEntDiscardsEntId := ← (a[0]!).getBool?, removeEntDiscardsNodeId := ← (a[1]!).getBool?,
            discardGuard := ← (a[2]!).getBool?, addEntAllocatesNode := ← (a[3]!).getBool?,
            popReleasesNode := ← (a[4]!).getBool?, parseKeepsPlaceholder := ← (a[5]!).getBool?,
-           removeSpawnRaises := ← (a[6]!).getBool? }
+           removeSpawnRaises := ← (a[6]!).getBool?, failedCtorReleases := ← (a[7]!).getBool? }
 
 def handle (j : Json) : Except String Json := do
   let op ← j.getObjValAs? String "op"
